@@ -151,7 +151,7 @@ class Sholl:
         """Function to calculate the list of radius used by the sholl."""
         if isinstance(steps, int):
             s = rmax / (steps + 1)
-            return np.arange(s, rmax, s)
+            return s * np.arange(1, steps + 1)
 
         return np.array(steps)
 
